@@ -462,7 +462,7 @@ pub fn c20(sc: &Scenario, rr: &RunResult) -> Vec<Violation> {
     let mut sid = 0u32;
     for st in &sc.steps {
         let Step::Sink(i, kind) = st else { continue };
-        let handle_sink = matches!(kind, SinkKind::CollectVec | SinkKind::Collect | SinkKind::CollectCount | SinkKind::CollectVecAll);
+        let handle_sink = matches!(kind, SinkKind::CollectVec | SinkKind::Collect | SinkKind::CollectCount | SinkKind::CollectVecAll | SinkKind::CollectAll);
         let downstream = tainted.contains(i) || matches!(&sc.steps[si], Step::Sink(..));
         for h in 0..sc.layout.hosts() as u64 {
             let v = rr.rec.sinks.get(&(sid, h)).cloned().unwrap_or(SinkValue::None);
@@ -484,7 +484,7 @@ pub fn c20(sc: &Scenario, rr: &RunResult) -> Vec<Violation> {
     let mut keep = vec![];
     for st in &sc.steps {
         if let Step::Sink(i, kind) = st {
-            let handle_sink = matches!(kind, SinkKind::CollectVec | SinkKind::Collect | SinkKind::CollectCount | SinkKind::CollectVecAll);
+            let handle_sink = matches!(kind, SinkKind::CollectVec | SinkKind::Collect | SinkKind::CollectCount | SinkKind::CollectVecAll | SinkKind::CollectAll);
             let present = (0..sc.layout.hosts() as u64).any(|h| !matches!(rr.rec.sinks.get(&(sid as u32, h)), Some(SinkValue::None) | None));
             keep.push(handle_sink && !tainted.contains(i) && present);
             sid += 1;
